@@ -6,8 +6,9 @@ and compared with an oracle that is a *table*, not a parser: each argument
 value of the grammar is one of the menu constants below and the table says
 what a component must receive for it.
 
-A case is the JSON-able tuple ``(entry, sparse, processors, entities)`` or
-``(entry, sparse, processors, entities, steps)``:
+A case is the JSON-able tuple ``(entry, sparse, processors, entities)``,
+``(entry, sparse, processors, entities, steps)`` or
+``(entry, sparse, processors, entities, steps, tree)``:
 
     entry       'dict'            populate_world_from_dict(World(), d)
                 'dict_handle'     WorldHandle whose only transform function is
@@ -42,10 +43,34 @@ A case is the JSON-able tuple ``(entry, sparse, processors, entities)`` or
                 $handle{} marker): after the first load and its checks a
                 fresh resource handle is assigned at root key 'a/b', the
                 world handle is cleared and loaded again, and the second
-                world is checked against the tree as it is *now*.
+                world is checked against the tree as it is *now*.  (Every
+                further resource path of the case is replaced likewise.)
+                at most one 'fail_<cause>_<who>' (file entries; never
+                together with an isolation step): before the load under test
+                a load attempt FAILS for a transient cause, then the cause is
+                removed.  cause 'resource': load() of every resource handle
+                of the tree raises (description holds a $res{} marker);
+                'file': the world file is written only afterwards; 'module':
+                the module of the argument "${c15h_late.OBJ}" is put into
+                sys.modules only afterwards.  who 'same': the failed attempt
+                is root[key] of the handle under test; 'other': of ANOTHER
+                WorldFromFileHandle on the same file stored at root key 'w2'.
+                If the attempt raises (any exception), the load under test
+                must pass every clause; if it does not raise the case ends
+                (nothing is promised about such a load).
+    tree        (optional; absent = {}) {'split_char': c}: for the whole case
+                ``desper.ResourceMap.split_char`` (class attribute) is c, one
+                of '/', ':', '|', '.'; every composite key the harness uses
+                (a/b, worlds/w, ...) is joined with c.  Put back to '/' at the
+                end of the case.
 
 The strings in ``args``/``kwargs`` are the literal JSON values written to the
-file.  For the two ``dict`` entries (real types, nothing is resolved there)
+file.  Beside the menu constants they may be the markers of PATH_TABLE:
+``$res{...}`` / ``$handle{...}`` naming one of PATH_KEYS (keys with a dash, a
+blank, '@', a leading digit, ...) at one of four positions of the tree; the
+harness puts a resource handle at every path the case names.  A resource
+marker must be replaced by what load() of the handle at that path returned
+last (recorded by the harness handle itself, not asked from desper's cache).  For the two ``dict`` entries (real types, nothing is resolved there)
 the harness passes the *resolved* description: the table's expected objects
 stand where the reference markers were.
 """
@@ -1517,8 +1542,8 @@ def families(tier):
             run_world_case,
             delimiter_cases(processor_lists([A1]),
                             entity_lists(component_lists([P1, P2]), 1),
-                            [True, False]),
-            dict(split_chars=CUSTOM_SPLIT_CHARS,
+                            [True]),
+            dict(split_chars=CUSTOM_SPLIT_CHARS, sparse=[True],
                  processors='sub-lists of [A1, B] in both orders',
                  components='<= 2 distinct of P1|P2, H in both orders',
                  ids=IDS, max_entities=1, A1=A1, P1=P1, P2=P2,
@@ -1670,12 +1695,45 @@ RULE = (
     'threading.Lock and of a module, one argument, positional or keyword, '
     'component or processor, root placement.  Part "object-from-string": 13 '
     'dotted names whose (module, attribute path) split is given by the case, '
-    'against importlib.import_module + getattr, called twice.  A case is '
+    'against importlib.import_module + getattr, called twice.  Part '
+    '"resource-paths": 25 resource keys (an identifier, and keys holding a '
+    'dash, blank, @, +, leading digit, non-ASCII letter, comma, #, ~, '
+    'apostrophe, parentheses, brackets, =, %, !, *, double quote, colon, '
+    'slash, backslash, pipe, $, a lone blank, a tab) x 4 positions in the '
+    'enclosing tree (root[K]; a/K next to a/b; d/K/leaf where K names a '
+    'sub-map; d/K/K) x {$res{...}, $handle{...}} x {positional, keyword} x '
+    '{component, processor} x 3 file placements x every delimiter of '
+    '{"/", ":", "|", "."} (ResourceMap.split_char, class attribute, set for '
+    'the whole case) that is in none of the keys of the path; thorough adds '
+    'every ordered pair of keys at position a/K as $res{} positional + '
+    '$handle{} keyword (and the other way round) of one component / '
+    'processor; each case goes on with the reload step (every path of the '
+    'case gets a fresh handle); expected: the handle stored at that path / '
+    'what its load() returned last, by identity.  Part "delimiter": for '
+    'each split_char of {":", "|", "."} the structure family (processor '
+    'lists of {A1, B}, 0-1 entities (thorough 0-2) with <= 2 components of '
+    '{P1|P2, Hnd}, all ids, 6 entries; quick: empty keys omitted only) with '
+    'the tree built through keys joined by that delimiter (a:b, worlds:w), '
+    'reload step included; thorough part "delimiter-arguments": the '
+    'slot-wise argument family (others = {1, $res{a.b}}) x 5 entries under '
+    'the same three delimiters.  Part "failed-first-attempt": processor '
+    'lists of {AF, B} x 0-1 entities (thorough 0-2) with <= 2 components '
+    'of {PF, Hnd} x all ids x 4 file entries x every step '
+    'fail_<cause>_<who> the description can take (cause: resource = every '
+    'resource handle raises in load(), needs a $res{} marker; file = the '
+    'world file does not exist yet; module = the module of ${c15h_late.OBJ} '
+    'is not importable yet; who: same = the failing attempt is made through '
+    'the handle under test, other = through another WorldFromFileHandle on '
+    'the same file stored at root key w2), thorough also under delimiter '
+    '":"; the attempt is made, the cause removed, and the load under test '
+    '(plus reload step) must pass every clause.  A case is '
     'distinct by its JSON text; non-trivial = it passed the oracle while '
     'exercising a named shortcut (reference kinds, id kinds, handler '
     'component, handle placement, further transform function, reload after '
     'the resource was replaced, empty string argument, subclass processor '
-    'before / after its base, another handle customised first / later).')
+    'before / after its base, another handle customised first / later, '
+    'resource key classes and positions, custom delimiter, load after a '
+    'failed attempt by cause and by handle).')
 
 ASSUMPTIONS = [
     'out of the alphabet: malformed markers (unterminated, trailing text '
@@ -1736,6 +1794,30 @@ ASSUMPTIONS = [
     'to part "arguments" (entries file_root, file_composite, file_submap)',
     'the empty string is an argument value like any other str; empty '
     'dictionary keys / keyword names are not in the menu',
+    'resource paths: a key is any non-empty str without "." (the marker '
+    'syntax gives no way to write such a key) and without the delimiter of '
+    'the tree; keys holding "{" or "}" (indistinguishable from malformed '
+    'markers), a line break (the stock patterns use "." which matches no '
+    '"\\n": "$res{a.x\\ny}" passes through as a str on the unchanged tree - '
+    'reported, not in the alphabet) and empty keys are not in the key menu',
+    'the delimiter is changed only the documented way (class attribute '
+    'ResourceMap.split_char, one character, constant during a case, the '
+    'tree built after the change); an instance attribute, a change between '
+    'building the tree and loading, and multi-character delimiters are not '
+    'in the alphabet',
+    '"the loaded resource" of a $res{} marker is the object returned by the '
+    'most recent completed load() of the handle stored at that path, as '
+    'recorded by the harness handle; how often load() is called is not '
+    'asked',
+    'failed first attempt: the oracle accepts any exception from the '
+    'attempt and asks nothing about it (if it does not raise, the case ends '
+    'without a verdict and without a coverage name); after the cause is '
+    'removed the load under test - the same handle again without clear(), '
+    'or another handle that shares file and resources - is an ordinary load '
+    'of a well-formed description and must pass every clause.  Causes are '
+    'transient and external (resource handle load() raising, missing world '
+    'file, module not yet in sys.modules); the lru_cache of '
+    'object_from_string is not cleared between attempt and load',
     'named objects of the main menu are deep-copyable instances; objects '
     'that cannot be deep-copied (a lock, a module) and a named str whose '
     'text looks like a resource marker are confined to part extra-forms',
